@@ -16,7 +16,7 @@ from aiocoap.util import hostportjoin, hostportsplit
 PROP = "C16"
 LEVEL = "exploration"
 EXHAUSTIVE = True
-RULE = ("E1: (a) 9 schemes x 22 hosts x 9 ports x {plain, userinfo, fragment} with two paths; (b) path lists of length <= 3 (4 in the thorough tier) and query "
+RULE = ("E1: (a) 9 schemes x 28 hosts x 9 ports x {plain, userinfo, fragment} with two paths; (b) path lists of length <= 3 (4 in the thorough tier) and query "
         "lists of length <= 2 over a 23-segment alphabet (reserved characters, empty, dots, control characters below U+0010 followed by a hex digit, DEL, non-ASCII up to astral planes, literal percent text), given "
         "percent-encoded in URI text and raw in options, for three host kinds; (c) verbatim bad escapes; (d) every string of length <= 3 (5 in the thorough tier) "
         "over {c o a p : / ? # @ [ ] % .} alone and behind 'coap:', 'coap://', 'coap://h', 'coap://h:', 'coaps+ws://[', 'coap://][', 'coap://@[', 'coap://[::1]'; (e) host/port split-join pairs. "
@@ -32,6 +32,10 @@ SCHEMES = ["coap", "coaps", "coap+tcp", "coaps+tcp", "coap+ws", "coaps+ws", "COA
 HOSTS = [
     ("example.com", "name", "example.com"), ("EXAMPLE.com", "name", "example.com"), ("ex%41mple.com", "name", "example.com"),
     ("ö.example", "name", "ö.example"), ("%C3%B6.example", "name", "ö.example"), ("%FF.example", "bad", None),
+    # (code points whose UTF-8 form contains the byte 0x80; raw upper-case non-ASCII is left out: URIs are ASCII, and what an
+    # IRI-tolerant parser does to its case is not the RFC's subject)
+    ("\u0140.example", "name", "\u0140.example"), ("%C3%80.example", "name", "\u00c0.example"), ("%C5%80%E2%80%80", "name", "\u0140\u2000"),
+    ("[ff02::fd%25eth0]", "zone", None), ("[::1%25lo]", "zone", None), ("[fe80::1%25eth1]", "zone", None),
     ("127.0.0.1", "ip", None), ("192.168.1.255", "ip", None), ("255.255.255.255", "ip", None), ("10.255.0.1", "ip", None), ("0.0.0.0", "ip", None),
     ("1.2.3.", "name", "1.2.3."), ("1..2.3", "name", "1..2.3"), ("256.1.1.1", "name", "256.1.1.1"),
     ("[::1]", "ip", None), ("[2001:db8::1]", "ip", None), ("[::ffff:1.2.3.4]", "ip", None), ("[fe80::1%25lo]", "dontcare", None),
@@ -167,6 +171,16 @@ def fam_authority(res):
                             continue
                         if hkind == "dontcare":
                             check_text(res, "authority", uri, "either", case)
+                            continue
+                        if hkind == "zone":
+                            # a zoned literal may be refused, but if it is accepted the zone stays part of the destination
+                            m = check_text(res, "authority", uri, "either", case)
+                            if m is not None and m.opt.proxy_uri is None:
+                                zone = htext[htext.index("%25") + 3:-1]
+                                hi = m.remote.hostinfo if isinstance(m.remote, UndecidedRemote) else ""
+                                if zone not in hi or m.opt.uri_host is not None:
+                                    res.violate(Violation("zone-lost", "destination keeps zone %r, no Uri-Host" % zone,
+                                                          {"hostinfo": hi, "uri_host": m.opt.uri_host}, "message.py:UndecidedRemote", dict(case, uri=uri), key="zone"))
                             continue
                         exp = {"host": hexp, "path": pexp, "query": ("k=v",) if path else (), "proxy": None}
                         check_text(res, "authority", uri, "ok", case, exp)
